@@ -125,8 +125,8 @@ def addBook (book : List Node) (ul : List Node) : List Node :=
 
 /-! ### getNeighbor -/
 
-def getNeighbor (e : Env) (o : Oracle) (alphaReq : Int) (skip : List Node) : List Node :=
-  let a : Nat := if alphaReq ≤ 0 then e.alpha else alphaReq.toNat
+/-- `getNeighbor` once the effective alpha is known -/
+def getNeighborN (o : Oracle) (a : Nat) (skip : List Node) : List Node :=
   let now := o.cands.filter (fun c => !skip.contains c.1)
   let direct := (now.filter (fun c => c.2 == 0)).map (·.1)
   let notDirect := (now.filter (fun c => c.2 == 1)).map (·.1)
@@ -134,6 +134,9 @@ def getNeighbor (e : Env) (o : Oracle) (alphaReq : Int) (skip : List Node) : Lis
   else
     let n := a - direct.length
     direct ++ (if notDirect.length > n then o.pick notDirect n else notDirect)
+
+def getNeighbor (e : Env) (o : Oracle) (alphaReq : Int) (skip : List Node) : List Node :=
+  getNeighborN o (if alphaReq ≤ 0 then e.alpha else alphaReq.toNat) skip
 
 /-! ### sending -/
 
@@ -158,6 +161,10 @@ def inPath (x : Node) (p : Path) : Bool := p.contains x
 /-- `inPaths(reqPath, items)` -/
 def inPaths (reqPath items : Path) : Bool := items.any (fun v => reqPath.contains v)
 
+/-- the stored paths `onRouteReq` may answer with: short enough and disjoint from the request path -/
+def answerPaths (e : Env) (t : Table) (target : Node) (reqPath : Path) : List Path :=
+  ((get t target).getD []).filter (fun v => !(decide (v.length + reqPath.length > e.ttl)) && !inPaths reqPath v)
+
 def onRouteReq (e : Env) (o : Oracle) (self : Node) (st : NodeSt) (src : Node) (req : Req) (now : Nat) :
     NodeSt × List Packet :=
   let target := req.dest
@@ -170,8 +177,7 @@ def onRouteReq (e : Env) (o : Oracle) (self : Node) (st : NodeSt) (src : Node) (
     else if e.nbr self target then
       forwardReq self st [target] src target req
     else
-      let stored := (get st.table target).getD []
-      let nowPaths := stored.filter (fun v => !(decide (v.length + reqPath.length > e.ttl)) && !inPaths reqPath v)
+      let nowPaths := answerPaths e st.table target reqPath
       if !nowPaths.isEmpty && !(req.utype = 1 && !st.book.contains target) then
         (st, [⟨self, src, .resp { dest := target, paths := convertPaths self nowPaths, utype := req.utype,
                                    ulist := convU req.utype target 0 [] [] }⟩])
